@@ -538,6 +538,9 @@ func (p *Program) Files(withDriver bool) map[string]string {
 				if p.InjRaw != "" {
 					c.pf("%s\n", p.InjRaw)
 				}
+				for ip, nm := range p.InjImports {
+					c.imports[ip] = nm
+				}
 			}
 			name := "wire.go"
 			if f > 0 {
@@ -733,6 +736,18 @@ func (c *fileCtx) injSig(in *Injector, withNames bool) (params, results string) 
 		return strings.Join(ps, ", "), res
 	}
 	res := c.ty(in.Result)
+	if withNames && len(in.ResultNames) > 0 {
+		rs := []string{in.ResultNames[0] + " " + res}
+		i := 1
+		if in.Cleanup {
+			rs = append(rs, in.ResultNames[i]+" func()")
+			i++
+		}
+		if in.Err {
+			rs = append(rs, in.ResultNames[i]+" error")
+		}
+		return strings.Join(ps, ", "), "(" + strings.Join(rs, ", ") + ")"
+	}
 	switch {
 	case in.Cleanup && in.Err:
 		res = "(" + res + ", func(), error)"
